@@ -13,7 +13,7 @@ from __future__ import absolute_import, division, print_function
 import numpy as np
 
 from odl.discr import DiscretizedSpace
-from odl.operator import Operator
+from odl.operator import MultiplyOperator, Operator
 from odl.trafos.backends.pywt_bindings import (
     PYWT_AVAILABLE, precompute_raveled_slices, pywt_pad_mode, pywt_wavelet)
 
@@ -24,6 +24,29 @@ _SUPPORTED_WAVELET_IMPLS = ()
 if PYWT_AVAILABLE:
     _SUPPORTED_WAVELET_IMPLS += ('pywt',)
     import pywt
+
+
+def _inner_product_weights(space):
+    """Return ``w`` with ``space.inner(x, y) == sum(w * x * y.conj())``.
+
+    The weights are the weighting constant of the space, multiplied by the
+    fractions of the outermost cells that lie in the domain (for grid points
+    on the boundary). ``None`` is returned for non-constant weightings.
+    """
+    const = getattr(space.weighting, 'const', None)
+    if const is None:
+        return None
+
+    weights = np.full(space.shape, float(const))
+    if space.is_uniform and not space.is_uniformly_weighted:
+        bdry_fracs = space.partition.boundary_cell_fractions
+        for axis, (frac_l, frac_r) in enumerate(bdry_fracs):
+            slc = [slice(None)] * space.ndim
+            slc[axis] = 0
+            weights[tuple(slc)] *= frac_l
+            slc[axis] = -1
+            weights[tuple(slc)] *= frac_r
+    return weights
 
 
 class WaveletTransformBase(Operator):
@@ -447,9 +470,14 @@ class WaveletTransform(WaveletTransformBase):
         OpNotImplementedError
             if `is_orthogonal` is ``False``
         """
-        if self.is_orthogonal:
-            scale = 1 / self.domain.partition.cell_volume
-            return scale * self.inverse
+        weights = _inner_product_weights(self.domain)
+        if self.is_orthogonal and weights is not None:
+            if np.all(weights == weights.flat[0]):
+                scale = 1 / weights.flat[0]
+                return scale * self.inverse
+            else:
+                weight_op = MultiplyOperator(self.domain.element(1 / weights))
+                return weight_op * self.inverse
         else:
             # TODO: put adjoint here
             return super(WaveletTransform, self).adjoint
@@ -661,9 +689,14 @@ class WaveletTransformInverse(WaveletTransformBase):
         --------
         inverse
         """
-        if self.is_orthogonal:
-            scale = self.range.partition.cell_volume
-            return scale * self.inverse
+        weights = _inner_product_weights(self.range)
+        if self.is_orthogonal and weights is not None:
+            if np.all(weights == weights.flat[0]):
+                scale = weights.flat[0]
+                return scale * self.inverse
+            else:
+                weight_op = MultiplyOperator(self.range.element(weights))
+                return self.inverse * weight_op
         else:
             # TODO: put adjoint here
             return super(WaveletTransformInverse, self).adjoint
